@@ -458,3 +458,45 @@ fn c09_mul_by_min() {
     kani::cover!(x == isize::MIN);
     kani::cover!(x == isize::MAX / 2 + 1);
 }
+
+// ---- mixed machine / big integer arms: operands reach num-bigint in source order ----------------
+// num-bigint's own arithmetic cannot be executed (addcarry intrinsic), so these harnesses replace
+// it by stubs that RETURN THEIR LEFT OPERAND: what is decided is jaq's dispatch -- which value is
+// passed on which side, and that the operation is delegated at all -- not num-bigint's result.
+fn left_rr<'a, 'b>(a: &'a BigInt, _b: &'b BigInt) -> BigInt
+where
+    'a: 'a,
+    'b: 'b,
+{
+    a.clone()
+}
+
+//@ tier: quick
+//@ funcs: <Num as Sub>::sub (Int/BigInt arms), <Num as Rem>::rem (Int/BigInt arms)
+//@ bounds: Int(i) for all isize; a big integer of any value representable in 128 bits; both argument orders; the `-` and `%` operators (not commutative)
+//@ assume: <&BigInt as Sub<&BigInt>>::sub and <&BigInt as Rem<&BigInt>>::rem stubbed to return their LEFT operand
+//@ asserts: `a - b` and `a % b` hand (a, b) to num-bigint in that order and always delegate (no shortcut that skips the big-number operation), whatever the magnitudes -- so Int - BigInt is not computed as BigInt - Int and no remainder shortcut is taken at +-2^63
+#[kani::proof]
+#[kani::unwind(6)]
+#[kani::stub(<&BigInt as core::ops::Sub<&BigInt>>::sub, left_rr)]
+#[kani::stub(<&BigInt as core::ops::Rem<&BigInt>>::rem, left_rr)]
+fn c09_mixed_sub_rem_operand_order() {
+    let i: isize = kani::any();
+    let v: i128 = kani::any();
+    let big = || Num::big_int(BigInt::from(v));
+    let is_left = |r: &Num, left: i128| match r {
+        Num::BigInt(b) => b.to_i128() == Some(left),
+        _ => false,
+    };
+    let r1 = Num::Int(i) - big();
+    assert!(is_left(&r1, i as i128));
+    let r2 = big() - Num::Int(i);
+    assert!(is_left(&r2, v));
+    let r3 = Num::Int(i) % big();
+    assert!(is_left(&r3, i as i128));
+    let r4 = big() % Num::Int(i);
+    assert!(is_left(&r4, v));
+    kani::cover!(i == isize::MIN && v == 1i128 << 63);
+    kani::cover!(v == 1 && i == 5);
+    core::mem::forget((r1, r2, r3, r4));
+}
